@@ -6,6 +6,7 @@ package secp256k1
 
 import (
 	"bytes"
+	"encoding/hex"
 	"math/big"
 	"testing"
 
@@ -106,6 +107,37 @@ func vRunCase11(t *testing.T, c vCase) (msg string) {
 		}
 		if qb != [3][4]uint64{q.x.E, q.y.E, q.z.E} {
 			return c.Op + " modified its element argument"
+		}
+	case "scalar-views":
+		// every exported view of one scalar value against math/big: Encode, Hex, MarshalBinary and the three decoders
+		v := vBig(c.A)
+		want := vPad32(v)
+		wantHex := hex.EncodeToString(want)
+		mk := []func() *Scalar{func() *Scalar { return vScalarOf(t, v) }}
+		if v.IsUint64() {
+			mk = append(mk, func() *Scalar { return NewScalar().SetUInt64(v.Uint64()) })
+		}
+		for i, f := range mk {
+			s := f()
+			if !bytes.Equal(s.Encode(), want) {
+				return "Encode(" + c.A + ") = " + hex.EncodeToString(s.Encode()) + " (constructor " + itoa(i) + ")"
+			}
+			if h := s.Hex(); h != wantHex {
+				return "Hex(" + c.A + ") = " + h + ", want " + wantHex
+			}
+			if mb, err := s.MarshalBinary(); err != nil || !bytes.Equal(mb, want) {
+				return "MarshalBinary(" + c.A + ") differs from Encode"
+			}
+			for j, dec := range []func(d *Scalar) error{func(d *Scalar) error { return d.Decode(want) }, func(d *Scalar) error { return d.UnmarshalBinary(want) },
+				func(d *Scalar) error { return d.DecodeHex(s.Hex()) }, func(d *Scalar) error { return d.DecodeHex(wantHex) }} {
+				d := NewScalar().MinusOne()
+				if err := dec(d); err != nil {
+					return "decoder " + itoa(j) + " rejects the encoding of " + c.A + ": " + err.Error()
+				}
+				if d.Equal(s) != 1 || vScalarVal(d).Cmp(v) != 0 {
+					return "decoder " + itoa(j) + " does not give back " + c.A
+				}
+			}
 		}
 	default:
 		return "unknown case kind " + c.Kind
